@@ -1,5 +1,6 @@
 (* C01 - every engine executes the FlipJump machine semantics exactly.  Statements only. *)
-From FJ Require Import Lib.Base Spec.MachineSpec Proofs.MachineProps.
+From FJ Require Import Lib.Base Spec.MachineSpec Model.EngPy Model.RunCase Proofs.MachineProps Proofs.EngPyProps.
+Local Open Scope N_scope.
 
 (* The halting observation of the machine definition is a function of the image and input alone
    (it does not depend on how much fuel the evaluation was given). *)
@@ -9,3 +10,29 @@ Theorem C01_halting_result_unique :
     c1 = c2 /\ s1 = s2.
 Proof. exact run_fuel_unique. Qed.
 Print Assumptions C01_halting_result_unique.
+
+(* The tracing/profiling loop (_run_featured) and the fast loop (_run_fast), as transcribed in Model/EngPy.v,
+   compute exactly the machine definition: for every width w = 2^ww >= 8, every segment table, every
+   Reader-style memory representation (dict + zero ranges) that denotes the image (memR), every input and
+   every number of steps, they end with the same cause (incl. fault address), the same ip, remaining input,
+   output bits, op count and op history, and memories that still denote the same image. *)
+Theorem C01_featured :
+  forall ww, 3 <= ww -> forall sg zb fuel s ps,
+    stR ww sg zb s ps -> ip s < 2 ^ (MachineSpec.w ww) ->
+    obsR ww sg zb (run ww sg fuel s) (run_py (featured_step ww zb) fuel ps).
+Proof. exact featured_run_correct. Qed.
+Print Assumptions C01_featured.
+
+Theorem C01_fast :
+  forall ww, 3 <= ww -> forall sg zb fuel s ps,
+    stR ww sg zb s ps -> ip s < 2 ^ (MachineSpec.w ww) ->
+    obsR ww sg zb (run ww sg fuel s) (run_py (fast_step ww zb) fuel ps).
+Proof. exact fast_run_correct. Qed.
+Print Assumptions C01_fast.
+
+(* non-vacuity: a concrete loaded image (w = 16, one segment, an op that outputs a bit then jumps into the zero tail and stops with ip<2w)
+   satisfies the hypotheses, and the three evaluations agree on it *)
+Example C01_hypotheses_satisfiable :
+  let c := mkcase 1 4 [(0, 6)] [4] [(0, 33); (1, 64); (2, 5); (3, 64)] [] 10 2 2 0 1 [] 1 None [] in
+  check_case c = true.
+Proof. vm_compute. reflexivity. Qed.
